@@ -101,6 +101,9 @@ def family(ctx):
 def random_chains(ctx, n):
     r = ctx['rng']
     fams = []
+    for wb in (None, ''):
+        fams.append(Fam('cmd --level=(v "verbose" | vv "very verbose" | vvv "debug") next;\n', '--level=', ['v', 'vv', 'vvv'], wb, 'random-described'))
+        fams.append(Fam('cmd --level=(a "zz" | ab | abc "a") next;\n', '--level=', ['a', 'ab', 'abc'], wb, 'random-described'))
     for _ in range(n):
         alpha = r.choice(['ab', 'xy', 'abc', '01'])
         k = r.randint(2, 5)
@@ -115,7 +118,14 @@ def random_chains(ctx, n):
         pre = r.choice(['--k=', 'p:', '-o', 'k='])
         wb = r.choice([None, ''])
         shape = r.random()
-        if shape < 0.4:
+        if shape < 0.4 and r.random() < 0.4:
+            # values with descriptions (some, all, repeated texts): the order in which the script tries the values must stay
+            # longest first whatever the descriptions are
+            ds = ['verbose', 'very verbose', 'debug', 'a', 'zz', 'Z first']
+            shown = ['%s "%s"' % (v, r.choice(ds)) if r.random() < 0.7 else v for v in vs]
+            text = 'cmd %s(%s) next;\n' % (pre, ' | '.join(shown))
+            fams.append(Fam(text, pre, vs, wb, 'random-described'))
+        elif shape < 0.4:
             text = 'cmd %s(%s) next;\n' % (pre, ' | '.join(vs))
             fams.append(Fam(text, pre, vs, wb, 'random'))
         elif shape < 0.6:
@@ -206,6 +216,8 @@ def run(ctx, res):
     fams = family(ctx)
     nfam = len(fams)
     fams += random_chains(ctx, 40 if ctx['tier'] == 'quick' else 600)
+    # the fixed described chains first: they run whatever the time budget cuts
+    fams.sort(key=lambda f: 0 if f.text.startswith('cmd --level=') else 1)
     dumps = impl.dump(exe, [f.text.encode() for f in fams], ['min', 'tables', 'script'], ['bash'])
     res.rule = ('exhaustive family: every vs <= {a,ab,abc,abcd,b,ba,abd} with 2..4 values (91 sets), grammar cmd --opt=(vs) next; '
                 'typed text = every prefix of every value (values included), as the last complete word and as the word under the cursor, '
